@@ -20,6 +20,15 @@ CLAIMS = {
             "delete stored state. A structural necessary condition of rollback protection, decided "
             "exhaustively over the CFG; not a proof of the cross-cycle behaviour.",
             "DESIGN.md §4 C03"),
+    "C04": ("MIR control-flow must-pass-through + value-origin analysis over load_*/check_expired/"
+            "read_target/Repository::load/Datastore::system_time, who-may-call query for the wall clock",
+            "Decides on every path: Ok/persist in the four loaders only with enforcement off or after "
+            "check_expired(returned document) succeeded (final root only, not stepping stones); "
+            "check_expired and read_target succeed only through time<=expires / time<earliest edges "
+            "with time from Datastore::system_time; earliest_expiration is the minimum over all four "
+            "roles; system_time refuses a clock earlier than the recorded one and is the only reader "
+            "of the wall clock. Structural necessary conditions; clock behaviour itself not decided.",
+            "DESIGN.md §4 C04"),
 }
 
 NOT_YET = {}
